@@ -478,6 +478,32 @@ impl std::io::Write for CountingWriter {
     }
 }
 
+/// Verification hooks (instrumentation only; compiled out unless the `verif`
+/// feature is enabled, which the workspace never does).
+#[cfg(feature = "verif")]
+pub mod verif {
+    use std::sync::{Arc, RwLock};
+
+    /// Callback invoked at every instrumented yield point.
+    pub type Hook = Arc<dyn Fn(&'static str) + Send + Sync>;
+
+    static HOOK: RwLock<Option<Hook>> = RwLock::new(None);
+
+    /// Installs (or clears) the process-wide yield-point callback.
+    pub fn set_hook(hook: Option<Hook>) {
+        *HOOK.write().unwrap() = hook;
+    }
+
+    /// A named yield point. No-op unless a callback is installed.
+    #[inline]
+    pub fn point(name: &'static str) {
+        let hook = HOOK.read().unwrap().clone();
+        if let Some(hook) = hook {
+            hook(name)
+        }
+    }
+}
+
 #[cfg(test)]
 mod tests {
     use super::*;
